@@ -1,6 +1,7 @@
 import os
 
 from ..runner import Harness, Spec
+from ..translate import go_translator
 
 _PKG = "exporter/exporterhelper/internal/queuebatch"
 
@@ -24,6 +25,8 @@ def _post(ctx):
 SPEC = Spec(
     pid="C02",
     post=_post,
+    # shared with C01 (same generator, same file): key names and radix of getItemKey, for C02_item_keys_never_collide_with_metadata
+    translators=[go_translator("pqkeys", "OtelVerif/Gen/PQKeys.lean")],
     lean_modules=["OtelVerif.Props.C02"],
     harnesses=[
         Harness(name="cond", module="exporter", pkg=_PKG, files={"zz_verif_c02_cond_test.go": "c02/cond_test.go"},
@@ -61,6 +64,8 @@ SPEC = Spec(
          "pre-phase (1/4 of the cases: an earlier life leaves 1-6 requests, optionally a stale `si` snapshot, this life may have a smaller "
          "capacity; `op restore`). distinct = distinct op sequences (sha1 of the op lines).",
     trusted_base=[
+        "translator translators/cmd/pqkeys (go/ast, owned by C01, reused): the four metadata key names and the radix of getItemKey -> "
+        "Gen/PQKeys.lean, for C02_item_keys_never_collide_with_metadata (request identity in the persistent model)",
         "Lean 4.33.0 kernel; axioms per theorem listed under axioms_per_theorem (subset of propext, Classical.choice, Quot.sound)",
         "hand-written LTS of memory_queue.go (Offer/add/Read/onDone/Shutdown) and of the repaired cond.go, tied by exact differential at "
         "quiescence after every label (queue) and at every lock hand-over (cond) on every run",
